@@ -115,6 +115,24 @@ def dom_macro(ctx):
     g_empty = guard("Vec::is_empty", lambda a: _has_field(a[0], "codewords"))
     g_ends = guard("::ends_with", lambda a: _has_field(a[0], "data") and any(c[1] == TRAIL for c in _consts_in(a[1])))
     g_starts = guard("::starts_with", lambda a: _has_field(a[0], "data"))
+    # `strip_suffix` / `strip_prefix` spell the same tests with the stripped slice as a by-product: the `Some` edge of the
+    # match on their result is the true edge of ends_with / starts_with
+    def strip_guard(suffix, pred):
+        out = []
+        for b, t in body.calls(lambda c, _t: T.canon(c).endswith(suffix)):
+            args = [body.deep(body.expr_of_operand, a) for a in t["args"]]
+            if pred(args) and not t["dest"]["p"]:
+                ve = body.variant_edges(t["dest"]["l"])
+                if 1 in ve and (0 in ve or "otherwise" in ve):
+                    out.append((b, ve[1], ve.get(0) or ve["otherwise"], args))
+        return out
+    if not g_ends:
+        g_ends = strip_guard("::strip_suffix", lambda a: _has_field(a[0], "data") and any(c[1] == TRAIL for c in _consts_in(a[1])))
+    strip_form = False
+    if not g_starts:
+        # the receiver is self.data or the slice strip_suffix returned for self.data
+        g_starts = strip_guard("::strip_prefix", lambda a: _has_field(a[0], "data") or any(isinstance(x, tuple) and x[0] == "call" and T.canon(x[1]).endswith("::strip_suffix") for x in M.walk(a[0])))
+        strip_form = bool(g_starts)
     find_form = False
     if not g_starts:
         # `table.into_iter().find(|(head, _)| data.starts_with(head))`: the header test is the predicate of a `find` over the
@@ -279,6 +297,11 @@ def fld_input(ctx):
                     cls = "tail-of-data"
                 elif rng[0] == "adt" and _has_field(c[2][0], "data"):
                     cls = "subslice-of-data"
+        if cls is None:
+            # a slice pattern `[first, ref tail @ ..]` on self.data: the subslice projection from index >= 0 to the end
+            for x in M.walk(e):
+                if isinstance(x, tuple) and x[0] == "proj" and _has_field(x[1], "data") and "sub_from" in str(x[2]) and ("'from_end': False" in str(x[2]) or "sub_to': 0" in str(x[2])):
+                    cls = "tail-of-data"
         if cls in ("tail-of-data", "suffix-of-input"):
             obs.append(Ob(r, "data:%s:%s" % (last, cls), True, "%s sets .data to a %s (still a suffix of .input)" % (last, cls.replace("-", " ")), site=site))
         else:
